@@ -319,6 +319,15 @@ class Gen:
             x = self.fresh("p")
             env2 = dict(env)
             env2[x] = aty
+            if ty == "int" and r.random() < 0.2:
+                # the "eta" shapes: ((lambda (x) (f x)) v) / ((lambda args (f args)) v) with a variable operand
+                vs = self.vars_of(env, "ilist")
+                if vs:
+                    self.stat("eta-applied-lambda")
+                    a = self.fresh("args")
+                    if r.random() < 0.5:
+                        return ("app", ("lam", [], a, [A("length", V(a))]), [V(r.choice(vs))])
+                    return ("app", ("lam", [a], None, [A("length", V(a))]), [V(r.choice(vs))])
             if r.random() < 0.3:
                 # immediately applied lambda with a rest parameter: 0..2 surplus operands
                 rest = self.fresh("rest")
@@ -1053,6 +1062,11 @@ CORPUS = [
                                                                     ("set", "s", _i(4)), _v("s"))])])), _app(_v("bx"))],
     [("define", "by", ("lam", [], None, [("let", [("s", _i(3))], [("set", "s", ("app", ("lam", [], None, [_app(_v("+"), _v("s"), _i(1))]), [])), _v("s")])])),
      _app(_v("by"))],
+    # F48: ((lambda args (f args)) v) was rewritten to (f v); ((lambda (x) (x x)) v) failed to compile
+    [("define", "ge", ("lam", ["y"], None, [("app", ("lam", [], "args", [_app(_v("length"), _v("args"))]), [_v("y")])])),
+     _app(_v("ge"), ("quote", ("dlist", [_i(1), _i(2), _i(3)])))],
+    [("define", "we", ("lam", ["y"], None, [("app", ("lam", ["x"], None, [_app(_v("x"), _v("x"))]), [_v("y")])])),
+     _app(_v("we"), ("lam", ["z"], None, [_i(5)]))],
     # F29 / F38: operand counts the native tier has no helper for
     [("define", "c9", ("lam", ["f"], None, [_app(_v("f"), *[_i(k) for k in range(1, 10)])])), _app(_v("c9"), _v("+"))],
     [("define", "s5", ("lam", ["a"], None, [_app(_v("-"), _v("a"), _i(1), _i(2), _i(3), _i(4))])), _app(_v("s5"), _i(20)), _app(_v("s5"), _i(21))],
